@@ -11,6 +11,7 @@ import (
 	"fmt"
 	"sort"
 	"strings"
+	"time"
 
 	"golang.org/x/tools/go/ssa"
 )
@@ -69,25 +70,27 @@ type pathState struct {
 	inconclusive    []string
 
 	// virtual environment
-	vfs         []vfile
-	fileOrder   []string
-	writes      []fsWrite
-	stdout      []value // string values
-	stderr      []string
-	goPanic     bool
-	reads       []value
-	outputs     []string
-	outTexts    []string
-	overridesOn bool
-	forcedPerm  int
-	sample      *PathSample
-	exitCode    int
-	exited      bool
-	osArgs      []value
-	failRead    map[string]bool
-	failWrite   map[string]bool
-	oracle      Oracles
-	iterEvents  int
+	vfs          []vfile
+	fileOrder    []string
+	writes       []fsWrite
+	stdout       []value // string values
+	stderr       []string
+	goPanic      bool
+	reads        []value
+	outputs      []string
+	outTexts     []string
+	overridesOn  bool
+	forcedPerm   int
+	nextClock    int64
+	pathDeadline time.Time
+	sample       *PathSample
+	exitCode     int
+	exited       bool
+	osArgs       []value
+	failRead     map[string]bool
+	failWrite    map[string]bool
+	oracle       Oracles
+	iterEvents   int
 }
 
 type fsWrite struct {
@@ -155,7 +158,14 @@ func (ps *pathState) varTerms() []*Term {
 }
 
 // feasible asks whether pc ∧ c is satisfiable.
+func (ps *pathState) checkClock() {
+	if !ps.pathDeadline.IsZero() && time.Now().After(ps.pathDeadline) {
+		panic(pathAbort{"unknown", "path wall-clock limit exceeded (solver-bound path)"})
+	}
+}
+
 func (ps *pathState) feasible(c *Term) satResult {
+	ps.checkClock()
 	if c.isTrue() {
 		// pc itself is assumed satisfiable (invariant of exploration)
 		return resSat
